@@ -453,10 +453,29 @@ fn tx_case(rng: &mut Rng, idx: usize) -> (String, String, bool, Vec<String>) {
     };
     let fees = finish_world(rng, &mut w, plain);
     let spec = w.spec;
+    let mut pre_tags: Vec<String> = vec![];
+    // every third generated transaction is given exactly the gas it needs (learned from a first run):
+    // nothing remains at the end, what the sender gets back is the refund alone
+    if idx >= 2 && idx % 3 == 2 {
+        let (db, tx, block) = (w.db.clone(), w.tx.clone(), w.block.clone());
+        let probe = catch(move || {
+            let mut evm = Evm::builder().with_db(db).with_spec_id(spec).modify_tx_env(|t| *t = tx).modify_block_env(|b| *b = block).build();
+            evm.transact().ok().map(|r| r.result)
+        });
+        if let Ok(Some(revm::primitives::ExecutionResult::Success { gas_used, gas_refunded, .. })) = probe {
+            let spent = gas_used + gas_refunded;
+            if spent >= 21_000 && spent <= w.tx.gas_limit {
+                w.tx.gas_limit = spent;
+                pre_tags.push("gas-limit:exactly-what-is-needed".into());
+                if gas_refunded > 0 { pre_tags.push("gas-limit:exact-and-refund>0".into()); }
+            }
+        }
+    }
     let cb = progs::addr(progs::COINBASE);
     let before = sum_db(&w.db);
     let cb_before = w.db.accounts.get(&cb).map(|x| x.info.balance).unwrap_or_default();
     let mut tags = w.tags.clone();
+    tags.extend(pre_tags);
     tags.push(if fees.reward { "reward:on".into() } else { "reward:off".into() });
     let r = run_tx(&w, fees.reward);
     let pairs = |v: &Vec<(Address, U256)>| zlist(v.iter().map(|(a, b)| format!("({},{})", zw(aw(*a)), zw(*b))));
